@@ -118,7 +118,8 @@ pub fn child_main(args: &Args) -> i32 {
             }
         };
         let mt = args.u64("memtable", 2_048);
-        let mk = |name: &str| db.keyspace(name, || KeyspaceCreateOptions::default().max_memtable_size(mt));
+        let manual = args.u64("manual", 0) == 1;
+        let mk = |name: &str| db.keyspace(name, || KeyspaceCreateOptions::default().max_memtable_size(mt).manual_journal_persist(manual));
         let kss = match (mk("m0"), mk("m1")) {
             (Ok(a), Ok(b)) => vec![a, b],
             (a, b) => {
@@ -251,6 +252,8 @@ pub fn child_main(args: &Args) -> i32 {
 
 /// number of writes of the victim-keyspace thread in the next child (0 = no such thread)
 static VICTIM: std::sync::atomic::AtomicU64 = std::sync::atomic::AtomicU64::new(0);
+/// keyspaces of the next child use manual journal persist (single writes stay in the journal's buffer)
+static MANUAL: std::sync::atomic::AtomicU64 = std::sync::atomic::AtomicU64::new(0);
 
 struct Run {
     recs: Vec<Rec>,
@@ -295,7 +298,9 @@ fn run_child2(seed: u64, threads: usize, n: usize, workers: usize, scale: u64, m
         .arg("--drawn-delay-us")
         .arg(drawn_delay_us.to_string())
         .arg("--victim")
-        .arg(VICTIM.load(std::sync::atomic::Ordering::Relaxed).to_string());
+        .arg(VICTIM.load(std::sync::atomic::Ordering::Relaxed).to_string())
+        .arg("--manual")
+        .arg(MANUAL.load(std::sync::atomic::Ordering::Relaxed).to_string());
     if tolerant {
         cmd.arg("--tolerant");
     }
@@ -561,7 +566,11 @@ fn fault_case(seed: u64, idx: u64, thorough: bool, stats: &mut Counts) -> Result
     let workers = 1;
     let scale = if rng.chance(1, 2) { 16_000 } else { 1 };
     let cseed = mix(&[seed, idx]);
-    let desc = format!("mt fault threads={threads} ops/thread={n} journal_scale={scale}");
+    // a third of the cases: keyspace-level manual journal persist - single writes stay in the journal's 8 KiB buffer and
+    // reach the OS when it fills up, at a batch commit, or when a worker asks for the journal position / rotates it
+    let manual = rng.chance(1, 3);
+    MANUAL.store(u64::from(manual), std::sync::atomic::Ordering::Relaxed);
+    let desc = format!("mt fault threads={threads} ops/thread={n} journal_scale={scale} manual_persist={manual}");
     let dry = run_child(cseed, threads, n, workers, scale, 4_096, true, None)?;
     rm_rf(&dry.scratch);
     let n_writes = dry.recs.iter().filter(|r| r.kind == K_WRITE && is_journal(&r.p1)).count();
@@ -747,6 +756,22 @@ fn fault_case(seed: u64, idx: u64, thorough: bool, stats: &mut Counts) -> Result
                     }
                 }
                 let mut ok = per[t] == st;
+                if !ok && manual {
+                    // manual journal persist: acknowledged single writes may still have been in the journal's buffer when
+                    // the fault hit; what must hold is that the client's keys are in the state of some prefix of its
+                    // acknowledged operations (nothing reordered, nothing foreign)
+                    let mut stp = TState::new();
+                    ok = per[t] == stp;
+                    for (i, op) in ops[t].iter().enumerate() {
+                        if ok {
+                            break;
+                        }
+                        if res.get(&(t, i)).is_some_and(|(_, o)| *o) || Some(i) == first_failed {
+                            apply(&mut stp, op);
+                            ok = per[t] == stp;
+                        }
+                    }
+                }
                 if !ok {
                     if let Some(f) = first_failed {
                         // re-apply in order with the failed op included
@@ -777,6 +802,7 @@ fn fault_case(seed: u64, idx: u64, thorough: bool, stats: &mut Counts) -> Result
         done += 1;
     }
     worker.kill();
+    MANUAL.store(0, std::sync::atomic::Ordering::Relaxed);
     Ok(format!("{desc} | journal writes={n_writes} syncs={n_syncs} | {done} fault executions"))
 }
 
